@@ -95,6 +95,26 @@ fn corpus() -> Vec<Vec<u8>> {
         let mut outer = plain(1300, 9); let n2 = outer.len(); outer[n2 - 4..].copy_from_slice(&(pay.len() as u32).to_be_bytes());
         let mut f = vec![0x78, 0x01]; f.extend_from_slice(&stored_stream(&outer, 65535)); f.extend_from_slice(&idat_chunk(&pay)[4..]); c.push(f);
     }
+    // several embedded streams in one file, back to back or with a few bytes between them (the scanner's cursor
+    // bookkeeping after a hit: prev_index, the 4-byte IDAT look-back right after an expanded stream)
+    {
+        let mut r = Lcg(7);
+        let pa = plain(1200, 21); let pb = plain(1400, 22); let pc = plain(1100, 23);
+        let ra = stored_stream(&pa, 65535); let rb = stored_stream(&pb, 500); let rc = stored_stream(&pc, 1024);
+        let za = zlib_wrap([0x78, 0x9c], &ra, &pa);
+        let gz = gzip_wrap(8, &rb, &pb);
+        let zp = zip_wrap(b"a.txt", b"", &rc);
+        let zc = zlib_wrap([0x78, 0xda], &rc, &pc);
+        let mut idat_run: Vec<u8> = vec![]; { let mut pos = 0; while pos < zc.len() { let e = (pos + 600).min(zc.len()); idat_run.extend_from_slice(&idat_chunk(&zc[pos..e])); pos = e; } }
+        let parts: Vec<Vec<u8>> = vec![za, gz, zp, idat_run];
+        for a in 0..parts.len() { for b in 0..parts.len() { for gap in [0usize, 1, 3, 4, 5] {
+            let mut f = vec![1u8, 2, 3, 4, 5]; f.extend_from_slice(&parts[a]);
+            for _ in 0..gap { f.push((r.next() % 200) as u8 + 30); }
+            f.extend_from_slice(&parts[b]); f.extend_from_slice(b"end");
+            c.push(f);
+        } } }
+        let mut f = vec![]; for p3 in &parts { f.extend_from_slice(p3); } c.push(f);
+    }
     // mutations: bit flips, truncations and splices of the structured files
     let base: Vec<Vec<u8>> = c.iter().filter(|f| f.len() > 64).cloned().collect();
     let mut r = Lcg(42);
@@ -116,7 +136,7 @@ fn corpus() -> Vec<Vec<u8>> {
 fn contains(h: &[u8], n: &[u8]) -> bool { n.is_empty() || h.windows(n.len()).any(|w| w == n) }
 /// the file embeds an intact stored-block stream of plaintext p behind an intact wrapper (only such files are checked)
 fn stored_payload_present(f: &[u8], p: &[u8]) -> bool {
-    for blk in [65535usize, 400, 1024, 1] {
+    for blk in [65535usize, 400, 500, 1024, 1] {
         let raw = stored_stream(p, blk);
         if !contains(f, &raw) { continue; }
         for hdr in [[0x78u8, 0x01], [0x78, 0x5e], [0x78, 0x9c], [0x78, 0xda]] { let mut z = hdr.to_vec(); z.extend_from_slice(&raw); if contains(f, &z) && !contains(f, b"IDAT") { return true; } }
@@ -211,8 +231,8 @@ fn verif_search() {
             }
             "c06" => {
                 // detection: the expanded form must carry the plaintext of every embedded stream we planted, verbatim
-                for (n, _blk) in [(1100usize, 65535usize), (1500, 400), (3000, 1024), (1025, 1)] {
-                    let p = plain(n, n as u64);
+                for (n, sd) in [(1100usize, 1100u64), (1500, 1500), (3000, 3000), (1025, 1025), (1200, 21), (1400, 22)] {
+                    let p = plain(n, sd);
                     let planted = f.windows(2).any(|w| w == [0x78, 0x01] || w == [0x78, 0x5e] || w == [0x78, 0x9c] || w == [0x78, 0xda] || w == [0x1f, 0x8b] || w == [0x50, 0x4b])
                         && stored_payload_present(f, &p);
                     if planted && !contains(&expanded, &p) { report(&which, &format!("embedded stream with {} bytes of plaintext was copied, not expanded", n), f); }
